@@ -1,5 +1,6 @@
 """C16 - label predicates and encoder round trip (structural clauses)."""
 import ast
+from ..astutil import inline_temporaries as _it
 
 from ..astutil import FuncTree, dominates, inline_temporaries, expand_delegation
 from ..common import norm_stmt
@@ -211,7 +212,7 @@ def run(p, report, tier):
                        inner_ok and fill_ok, detail=f"inner={inner_ok} fill=`{ast.unparse(neg[0].value)}`")
     # ---- definite assignment
     for fn in (il, iu, li, ui, enc.methods["fit"], enc.methods["transform"], enc.methods["inverse_transform"]):
-        da = DefiniteAssignment(fn.node).run()
+        da = DefiniteAssignment(_it(fn.node)).run()
         report.add("R1.7", fn.qual, "all locals bound before use", f"{fn.file}:{fn.node.lineno}", not da.reports,
                    detail="; ".join(f"{k} unbound" for k in da.reports))
     report.assumptions += ["numpy casting rules, the round trip and dtype behaviour as values are not decided"]
